@@ -847,30 +847,29 @@ theorem void_adds_no_log (framePointers : Bool) (logs : List Bytes) :
 section contract
 variable {σ : Type} [DecidableEq σ] (sel : String → σ)
 
-/-- the name given to `add_method_handler` is the name the method is known under -/
-def Reg.consistent (r : Reg) : Prop := r.overriding = none ∨ r.overriding = some r.fnName
+/-- the contract entry `add_method_handler` records has the signature it dispatches on -/
+theorem registered_sig (r : Reg) : r.registeredSpec.signature = r.methodSignature := by
+  cases h : r.overriding <;>
+    simp [Reg.registeredSpec, Reg.methodSpec, MethodSpec.signature, Reg.methodSignature, h]
 
-theorem consistent_sig (r : Reg) (h : Reg.consistent r) : r.methodSpec.signature = r.methodSignature := by
-  rcases h with h | h <;> simp [Reg.methodSpec, MethodSpec.signature, Reg.methodSignature, h]
-
-theorem registerAll_spec : ∀ (regs : List Reg) (st st' : RouterSt σ),
-    registerAll sel st regs = .ok st' →
-    st'.methods = st.methods ++ regs.map Reg.methodSpec ∧
+theorem registerAllWith_spec (specOf : Reg → MethodSpec) : ∀ (regs : List Reg) (st st' : RouterSt σ),
+    registerAllWith specOf sel st regs = .ok st' →
+    st'.methods = st.methods ++ regs.map specOf ∧
     st'.sigs = st.sigs ++ regs.map Reg.methodSignature ∧
     st'.sels = st.sels ++ regs.map (fun r => sel r.methodSignature) ∧
     (st.sels.Nodup → st'.sels.Nodup) ∧ (st.sigs.Nodup → st'.sigs.Nodup) := by
   intro regs
   induction regs with
-  | nil => intro st st' h; simp [registerAll] at h; subst h; simp
+  | nil => intro st st' h; simp [registerAllWith] at h; subst h; simp
   | cons r regs ih =>
     intro st st' h
-    simp only [registerAll] at h
-    cases hr : register sel st r with
+    simp only [registerAllWith] at h
+    cases hr : registerWith specOf sel st r with
     | error e => rw [hr] at h; cases h
     | ok st1 =>
       rw [hr] at h
       obtain ⟨h1, h2, h3, h4, h5⟩ := ih st1 st' h
-      unfold register at hr
+      unfold registerWith at hr
       dsimp only at hr
       split at hr
       · cases hr
@@ -888,70 +887,67 @@ theorem registerAll_spec : ∀ (regs : List Reg) (st st' : RouterSt σ),
               List.nodup_nil, and_self, List.mem_cons, or_false, true_and]
             exact ⟨hnd, fun a ha b hb => by subst hb; intro e; subst e; exact hns ha⟩
 
-/-
-  Full statement (FALSE for the code as it is, see `contract_selectors_counterexample`):
-
-    theorem contract_selectors (regs) (st) (h : registerAll sel {} regs = .ok st) :
-        (contractOf st).map (fun m => sel m.signature) = dispatchedOf sel st
--/
-
-/-- **contract_selectors_partial**: when no registration renames its method
-    (`overriding_name` absent or equal to the subroutine's name), the contract lists exactly
-    the registered methods, in order, with the signatures — hence the selectors — the approval
-    program dispatches on; the selectors are pairwise distinct. -/
-theorem contract_selectors_partial (regs : List Reg) (st : RouterSt σ)
-    (h : registerAll sel {} regs = .ok st) (hc : ∀ r ∈ regs, Reg.consistent r) :
-    contractOf st = regs.map Reg.methodSpec ∧
+/-- **contract_selectors**: for every accepted sequence of registrations (with or without
+    `overriding_name`), the contract lists exactly the registered methods, in order, under the
+    name they were registered with and with their argument / return types; their signatures —
+    hence their selectors, for any selector function — are exactly the ones the approval
+    program dispatches on, and these are pairwise distinct. -/
+theorem contract_selectors (regs : List Reg) (st : RouterSt σ)
+    (h : registerAll sel {} regs = .ok st) :
+    contractOf st = regs.map Reg.registeredSpec ∧
     (contractOf st).map (fun m => m.signature) = st.sigs ∧
     (contractOf st).map (fun m => sel m.signature) = dispatchedOf sel st ∧
-    (dispatchedOf sel st).Nodup := by
-  obtain ⟨h1, h2, h3, h4, _⟩ := registerAll_spec sel regs {} st h
+    (dispatchedOf sel st).Nodup ∧
+    (contractOf st).map (fun m => (m.name, m.args, m.ret)) =
+      regs.map (fun r => (r.overriding.getD r.fnName, r.args, r.ret)) := by
+  obtain ⟨h1, h2, h3, h4, _⟩ := registerAllWith_spec sel Reg.registeredSpec regs {} st h
   simp only [List.nil_append] at h1 h2 h3
-  have hs : (regs.map Reg.methodSpec).map (fun m => m.signature) = regs.map Reg.methodSignature := by
+  have hs : (regs.map Reg.registeredSpec).map (fun m => m.signature) = regs.map Reg.methodSignature := by
     rw [List.map_map]
     apply List.map_congr_left
-    intro r hr
-    exact consistent_sig r (hc r hr)
-  refine ⟨h1, ?_, ?_, ?_⟩
+    intro r _
+    exact registered_sig r
+  refine ⟨h1, ?_, ?_, ?_, ?_⟩
   · simp only [contractOf]; rw [h1, h2, hs]
   · simp only [contractOf, dispatchedOf]
-    rw [h1, h2, List.map_map]
-    rw [List.map_map]
+    rw [h1, h2, List.map_map, List.map_map]
     apply List.map_congr_left
-    intro r hr
+    intro r _
     simp only [Function.comp]
-    rw [consistent_sig r (hc r hr)]
+    rw [registered_sig r]
   · simp only [dispatchedOf]
     rw [h2, List.map_map]
     have := h4 List.nodup_nil
     rw [h3] at this
     exact this
+  · simp only [contractOf]
+    rw [h1, List.map_map]
+    apply List.map_congr_left
+    intro r _
+    cases ho : r.overriding <;> simp [Reg.registeredSpec, Reg.methodSpec, ho]
 
-/-- in every accepted router (renaming or not) the dispatched selectors are pairwise distinct and
-    the contract has one entry per registration, with the registered argument and return types -/
+/-- one contract entry and one dispatched selector per registration -/
 theorem contract_shape (regs : List Reg) (st : RouterSt σ) (h : registerAll sel {} regs = .ok st) :
-    (contractOf st).length = regs.length ∧ (dispatchedOf sel st).length = regs.length ∧
-    (dispatchedOf sel st).Nodup ∧
-    (contractOf st).map (fun m => (m.args, m.ret)) = regs.map (fun r => (r.args, r.ret)) := by
-  obtain ⟨h1, h2, h3, h4, _⟩ := registerAll_spec sel regs {} st h
-  simp only [List.nil_append] at h1 h2 h3
-  refine ⟨by simp [contractOf, h1], by simp [dispatchedOf, h2], ?_, ?_⟩
-  · simp only [dispatchedOf]; rw [h2, List.map_map]
-    have := h4 List.nodup_nil
-    rw [h3] at this; exact this
-  · simp [contractOf, h1, Reg.methodSpec]
+    (contractOf st).length = regs.length ∧ (dispatchedOf sel st).length = regs.length := by
+  obtain ⟨h1, h2, _, _, _⟩ := registerAllWith_spec sel Reg.registeredSpec regs {} st h
+  simp only [List.nil_append] at h1 h2
+  exact ⟨by simp [contractOf, h1], by simp [dispatchedOf, h2]⟩
 
 end contract
 
-/-- **contract_selectors_counterexample**: `add_method_handler(m, overriding_name="foo")` — the
-    program dispatches on the selector of `foo()void`, the contract lists `m()void` (selectors
-    taken as the signature text itself, an injective choice). -/
-theorem contract_selectors_counterexample :
-    ∃ st, registerAll (fun s => s) {} [⟨"m", some "foo", [], "void"⟩] = .ok st ∧
+/-- **contract_selectors_old_counterexample** (regression witness): the code before commit
+    caa13a5 (`registerAllOld`) on `add_method_handler(m, overriding_name="foo")` — the program
+    dispatches on `foo()void`, the contract listed `m()void`; the code as it is lists
+    `foo()void` (selectors taken as the signature text itself, an injective choice). -/
+theorem contract_selectors_old_counterexample :
+    (∃ st, registerAllOld (fun s => s) {} [⟨"m", some "foo", [], "void"⟩] = .ok st ∧
       (contractOf st).map (fun m => m.signature) = ["m()void"] ∧
       dispatchedOf (fun s => s) st = ["foo()void"] ∧
-      (contractOf st).map (fun m => m.signature) ≠ dispatchedOf (fun s => s) st := by
-  refine ⟨_, rfl, ?_, ?_, ?_⟩ <;> decide
+      (contractOf st).map (fun m => m.signature) ≠ dispatchedOf (fun s => s) st) ∧
+    (∃ st, registerAll (fun s => s) {} [⟨"m", some "foo", [], "void"⟩] = .ok st ∧
+      (contractOf st).map (fun m => m.signature) = ["foo()void"] ∧
+      dispatchedOf (fun s => s) st = ["foo()void"]) := by
+  refine ⟨⟨_, rfl, ?_, ?_, ?_⟩, ⟨_, rfl, ?_, ?_⟩⟩ <;> decide
 
 /-! ## non-vacuity -/
 
@@ -987,15 +983,9 @@ example : specRun demoSig demoCall =
 example : specRun demoSig { demoCall with groupTypes := [1, 4, 4, 6] } = none := by decide
 example : specRun demoSig { demoCall with gi := 1 } = none := by decide
 example : modelRun demoSig { demoCall with appArgs := demoCall.appArgs.take 15 } = none := by rw [run_eq]; decide
-/-- hypotheses of `contract_selectors_partial` are satisfiable -/
-example : ∃ st, registerAll (fun s => s) {} [⟨"m", none, ["uint64"], "void"⟩, ⟨"n", some "n", [], "uint64"⟩] = .ok st ∧
-    (∀ r ∈ [(⟨"m", none, ["uint64"], "void"⟩ : Reg), ⟨"n", some "n", [], "uint64"⟩], Reg.consistent r) := by
-  refine ⟨_, rfl, ?_⟩
-  intro r hr
-  simp at hr
-  rcases hr with rfl | rfl
-  · exact .inl rfl
-  · exact .inr rfl
+/-- hypotheses of `contract_selectors` are satisfiable (a renamed and an unrenamed method) -/
+example : ∃ st, registerAll (fun s => s) {} [⟨"m", none, ["uint64"], "void"⟩, ⟨"n_impl", some "n", [], "uint64"⟩] = .ok st ∧
+    (contractOf st).map (fun m => m.signature) = ["m(uint64)void", "n()uint64"] := ⟨_, rfl, by decide⟩
 example : (match registerAll (fun s => s) {} [⟨"m", none, [], "void"⟩, ⟨"k", some "m", [], "void"⟩] with
     | .error .duplicate => true | _ => false) = true := by decide
 
